@@ -149,7 +149,8 @@ def _enabled(a):
             # peer is the responder
             if a.peer_send_open:
                 if m == 'rr':
-                    out += ['p:next_complete', 'p:complete', 'p:error']
+                    # a response PAYLOAD with NEXT but without COMPLETE is legal: for request-response NEXT implies it
+                    out += ['p:next_complete', 'p:complete', 'p:error', 'p:next', 'p:frag']
                 else:
                     out += ['p:next', 'p:next_complete', 'p:complete', 'p:error', 'p:frag']
             elif m == 'channel':
@@ -205,6 +206,12 @@ def _apply(a, s):
         a.peer_in_run = True
     elif s == 'p:frag_end':
         a.peer_in_run = False
+        if m == 'rr' and r == 'requester':
+            a.peer_send_open = False
+            a.peer_dead = True
+    elif s == 'p:next' and m == 'rr' and r == 'requester':
+        a.peer_send_open = False
+        a.peer_dead = True
     elif s in ('p:next_complete', 'p:complete'):
         a.peer_send_open = False
         if m in ('rr', 'stream') and r == 'requester':
